@@ -1,0 +1,21 @@
+//go:build verif
+
+// Contracts (machine-checked specifications) for the keeper, read by /verif's govc.
+// This file contains comments only and compiles to nothing with or without the tag.
+
+package keeper
+
+// Genesis (C17): the module panics when a component fails to initialise. With a genesis that passed
+// validation and a fresh store (nothing paused) no component fails, so the panic is unreachable: this is
+// the safety obligation "explicit panic is unreachable" of this function, together with the absence of
+// nil dereferences on the way.
+//@ func (k *Keeper) InitGenesis(ctx, g)
+//@   requires[inv] k != nil && k.adapter != nil && k.dispatcher != nil && k.forwarder != nil && k.executor != nil
+//   A-COLL-DISTINCT: the two int32 key sets are different collections (the schema builder panics on a duplicate prefix)
+//@   requires[inv] k.executor.PausedActions != k.forwarder.pausedProtocols
+//@   requires[C17] genesisOK(g)
+//@   requires[C17] nothingPaused(k.forwarder) && noActionPaused(k.executor)
+//@   modifies item_set, item_params, amt_has, amt_val, cnt_has, cnt_val, ks_i32, ks_pair
+//@   ensures[C17] item_set[k.adapter.params] && item_params[k.adapter.params] == g.AdapterGenesis.Params
+//@   ensures[C17] forall j int :: 0 <= j && j < len(g.ExecutorGenesis.PausedActionIds) ==> ks_i32[k.executor.PausedActions][g.ExecutorGenesis.PausedActionIds[j]]
+//@   ensures[C17] forall j int :: 0 <= j && j < len(g.ForwarderGenesis.PausedProtocolIds) ==> ks_i32[k.forwarder.pausedProtocols][g.ForwarderGenesis.PausedProtocolIds[j]]
